@@ -5,8 +5,8 @@
    parameter types.  Reading conventions (LeafConv.v): byte pointers are [ptr_of b addr pos], the descriptor struct is
    [td_of b addr d], an int result r reads as [vres_of (Some r)], None (a read outside the buffer) as VOob, C's
    `int required` as [negb (required =? 0)], `uint16_t align` is a power of two up to 32768.
-   Only statements, each closed by [exact] of a lemma proved in Verifier/LeafEquiv.v. *)
-From Flatcc.Verifier Require Import VerifierModel LeafConv LeafEquiv.
+   Only statements, each closed by [exact] of a lemma proved in Verifier/LeafEquiv*.v. *)
+From Flatcc.Verifier Require Import VerifierModel LeafTac LeafConv LeafEquiv LeafEquivField LeafEquivVector.
 From Flatcc.Generated Require Import Leaf_verifier.
 Local Open Scope Z_scope.
 
